@@ -28,6 +28,7 @@ import (
 	"strconv"
 	"strings"
 	"sync"
+	"sync/atomic"
 	"time"
 
 	"github.com/golang/protobuf/ptypes/empty"
@@ -698,7 +699,11 @@ func buildSystematic() []sysCase {
 	return out
 }
 
+var accessMethods = []string{"POST", "GET", "OPTIONS", "HEAD", "PUT", "DELETE", "PATCH", "TRACE", "POST", "GET", "OPTIONS"}
+var accessPaths = []string{"/v1/spaces", "/", "/v1/client/status", "/v1/spaces/abc"}
+
 type accessResult struct {
+	method   string
 	allowed  bool
 	panicked string
 	code     int
@@ -724,8 +729,12 @@ func runAccess(c acfg, remote string, spoof bool) (res accessResult, ctorErr err
 		inner++
 		w.WriteHeader(http.StatusOK)
 	}), fn)
-	req := httptest.NewRequest("POST", "http://node.example/v1/spaces", strings.NewReader("{}"))
+	// the origin check stands in front of everything, whatever the method and path
+	method := accessMethods[int(vh.HashS("method", remote)%uint64(len(accessMethods)))]
+	path := accessPaths[int(vh.HashS("path", remote)%uint64(len(accessPaths)))]
+	req := httptest.NewRequest(method, "http://node.example"+path, strings.NewReader("{}"))
 	req.RemoteAddr = remote
+	res.method = method
 	if spoof {
 		// client-controlled headers naming a permitted origin must not influence the decision
 		lo := "127.0.0.1"
@@ -750,6 +759,103 @@ func runAccess(c acfg, remote string, spoof bool) (res accessResult, ctorErr err
 	res.code = rec.Code
 	res.inner = inner
 	return res, nil
+}
+
+// concurrentAccessCase: one predicate (as the gateway builds it once per server), 6-10 goroutines asking it and the
+// handler chain about 6-12 origins (permitted and forbidden mixed) at the same time; expectation = the predicate's own
+// answer for that origin when asked alone (those answers are judged against the reference in part 1).
+func concurrentAccessCase(run *vh.Run, ci int, rng *vh.Rng) {
+	c := genConfig(rng, ci)
+	for _, w := range c.WL {
+		if w == "*" {
+			c.WL = []string{"203.0.113.7"}
+		}
+	}
+	fn, err := api.VerifIPAccessControlFunc(c.WL, c.LAN)
+	if err != nil {
+		run.Drop("concurrent access: constructor rejected the configuration")
+		return
+	}
+	remotes := []string{"127.0.0.1:4711", "8.8.8.8:53", "[2001:4860:4860::8888]:443", "[::1]:9"}
+	for k := 0; k < rng.Range(2, 8); k++ {
+		r, _, _ := genRemote(rng, c, false)
+		remotes = append(remotes, r)
+	}
+	alone := map[string]bool{}
+	nAllowed := 0
+	for _, r := range remotes {
+		ok := false
+		func() {
+			defer func() { recover() }()
+			ok = fn(r)
+		}()
+		alone[r] = ok
+		if ok {
+			nAllowed++
+		}
+	}
+	if nAllowed == 0 || nAllowed == len(remotes) {
+		run.Drop("concurrent access: origins are not mixed")
+		return
+	}
+	G, rounds := rng.Range(6, 10), 300
+	type miss struct {
+		remote, via string
+		got, want   bool
+		code, inner int
+	}
+	var mu sync.Mutex
+	var first *miss
+	var calls, chainCalls int64
+	var wg sync.WaitGroup
+	for g := 0; g < G; g++ {
+		g := g
+		wg.Add(1)
+		go func() {
+			defer wg.Done()
+			defer func() { recover() }()
+			for j := 0; j < rounds; j++ {
+				r := remotes[(g*7+j)%len(remotes)]
+				want := alone[r]
+				atomic.AddInt64(&calls, 1)
+				if got := fn(r); got != want {
+					mu.Lock()
+					if first == nil {
+						first = &miss{remote: r, via: "predicate", got: got, want: want}
+					}
+					mu.Unlock()
+					return
+				}
+				if j%6 == g%6 {
+					inner := 0
+					h := api.VerifGatewayChain(http.HandlerFunc(func(w http.ResponseWriter, _ *http.Request) { inner++; w.WriteHeader(http.StatusOK) }), fn)
+					req := httptest.NewRequest(accessMethods[(g+j)%len(accessMethods)], "http://node.example/v1/spaces", strings.NewReader("{}"))
+					req.RemoteAddr = r
+					rec := httptest.NewRecorder()
+					h.ServeHTTP(rec, req)
+					atomic.AddInt64(&chainCalls, 1)
+					admitted := rec.Code != http.StatusForbidden
+					if admitted != want || (inner > 0) != want {
+						mu.Lock()
+						if first == nil {
+							first = &miss{remote: r, via: "handler-chain", got: admitted, want: want, code: rec.Code, inner: inner}
+						}
+						mu.Unlock()
+						return
+					}
+				}
+			}
+		}()
+	}
+	wg.Wait()
+	run.Count("concurrent_access_predicate_calls", atomic.LoadInt64(&calls))
+	run.Count("concurrent_access_chain_calls", atomic.LoadInt64(&chainCalls))
+	if first != nil {
+		run.Violate(ci, "access-decision-differs-under-concurrent-requests", map[string]string{"via": first.via, "admitted": strconv.FormatBool(first.got)},
+			map[string]interface{}{"whitelist": c.WL, "allowed_lan": c.LAN, "remote_addr": first.remote, "answer_when_asked_alone": first.want, "answer_under_concurrency": first.got,
+				"status_code": first.code, "inner_handler_runs": first.inner, "origins_in_play": remotes, "goroutines": G})
+	}
+	run.Case(vh.HashS("conc-access", strings.Join(c.WL, "\x00"), strings.Join(c.LAN, "\x00"), strings.Join(remotes, "|")), true)
 }
 
 func accessCase(run *vh.Run, ci int, rc remoteCase) {
@@ -1696,6 +1802,16 @@ func main() {
 	})
 
 	lap("amount")
+	// ---- part 4: the same decision while other origins are being judged at the same time (net/http serves every
+	// connection on its own goroutine): every answer must be the one the predicate gives when asked alone
+	base = amtBase + nAmt
+	nConc := run.N(40, 1000)
+	for k := 0; k < nConc; k++ {
+		if run.Want(base + k) {
+			concurrentAccessCase(run, base+k, root.Derive("conc-access", k))
+		}
+	}
+	lap("concurrent-access")
 	run.Set("wall_s_by_part", partWall)
 	if run.Only < 0 {
 		if run.Counter("access_judged_outside_all_classes") == 0 || run.Counter("access_403_observed") == 0 {
